@@ -71,13 +71,13 @@ Record bcase := mkBCase {
   bc_version : Z;                            (* observed req.Version (-1: the set was empty, nothing built) *)
   bc_parts : list (tpk * records);           (* decoded request, per partition *)
   bc_sets : list (tpk * list Z);             (* partitionSet.msgs (ids in order), per partition *)
-  bc_bases : list (tpk * Z);                 (* handleSuccess drive: base offset answered for each partition *)
-  bc_succ : list (Z * Z)                     (* ... and the (id, Offset) of every message on the successes channel *)
+  bc_bases : list (tpk * (Z * Z));           (* handleSuccess drive: base offset and block Timestamp (ZERO_TIME: unset) answered for each partition *)
+  bc_succ : list (Z * (Z * Z))               (* ... and (id, (Offset, Timestamp)) of every message on the successes channel *)
 }.
 
 Fixpoint assoc {A} (k : tpk) (l : list (tpk * A)) : option A :=
   match l with [] => None | (k', v) :: r => if tpk_eqb k k' then Some v else assoc k r end.
-Fixpoint zassoc (k : Z) (l : list (Z * Z)) : option Z :=
+Fixpoint zassoc {A} (k : Z) (l : list (Z * A)) : option A :=
   match l with [] => None | (k', v) :: r => if k =? k' then Some v else zassoc k r end.
 
 Definition part_ok (c : pcfg) (obs : list (tpk * records)) (sets : list (tpk * list Z)) (kx : tpk * partset) : bool :=
@@ -87,11 +87,12 @@ Definition part_ok (c : pcfg) (obs : list (tpk * records)) (sets : list (tpk * l
   | _, _, _ => false
   end.
 
-Definition succ_ok (bases : list (tpk * Z)) (succ : list (Z * Z)) (kx : tpk * partset) : bool :=
+Definition zz_eqb (a b : Z * Z) : bool := (fst a =? fst b) && (snd a =? snd b).
+Definition succ_ok (c : pcfg) (bases : list (tpk * (Z * Z))) (succ : list (Z * (Z * Z))) (kx : tpk * partset) : bool :=
   let '(k, x) := kx in
   match assoc k bases with
-  | Some base => forallb (fun mo => option_eqb Z.eqb (zassoc (pm_id (fst mo)) succ) (Some (snd mo)))
-                         (assign_offsets base (ps_msgs x))
+  | Some (base, bts) => forallb (fun mot => let '(m, o, t) := mot in option_eqb zz_eqb (zassoc (pm_id m) succ) (Some (o, t)))
+                                (handle_success c base bts (ps_msgs x))
   | None => false
   end.
 
@@ -108,7 +109,7 @@ Definition ok_build (b : bcase) : bool :=
       (bc_version b =? req_version c) &&
       (len (bc_parts b) =? len ps) && (len (bc_sets b) =? len ps) &&
       forallb (part_ok c (bc_parts b) (bc_sets b)) ps &&
-      forallb (succ_ok (bc_bases b) (bc_succ b)) ps && (len (bc_succ b) =? count_msgs ps)
+      forallb (succ_ok c (bc_bases b) (bc_succ b)) ps && (len (bc_succ b) =? count_msgs ps)
   end.
 Definition mismatches_build := mismatches ok_build.
 
@@ -127,7 +128,8 @@ Record ecase := mkECase {
   ec_all : list (Z * list Z);                  (* per topic: client.Partitions *)
   ec_writable : list (Z * list (list Z));      (* per topic: the WritablePartitions lists of the metadata states (distinct lengths) *)
   ec_reqs : list ereq;                         (* in the order the cluster handled them *)
-  ec_succ : list (Z * Z * Z)                   (* success events: (id, Partition, Offset) *)
+  ec_lat : Z;                                  (* ZERO_TIME, or the topics are LogAppendTime: the brokers' clock, stamped on every entry and answered in every block *)
+  ec_succ : list (Z * Z * Z * Z)               (* success events: (id, Partition, Offset, Timestamp) *)
 }.
 
 Fixpoint zlassoc {A} (k : Z) (l : list (Z * A)) : option A :=
@@ -151,8 +153,8 @@ Definition expected_partition (e : ecase) (m : emsg) : routed :=
             | None => [] end in
   partition_message (em_consistent m) (inl all) (inl wr) (PChoice (em_choice m)).
 
-Definition succ_e2e_ok (e : ecase) (s : Z * Z * Z) : bool :=
-  let '(id, part, off) := s in
+Definition succ_e2e_ok (e : ecase) (s : Z * Z * Z * Z) : bool :=
+  let '(id, part, off, ts) := s in
   match find_msg id (ec_msgs e) with
   | None => false
   | Some m =>
@@ -160,8 +162,10 @@ Definition succ_e2e_ok (e : ecase) (s : Z * Z * Z) : bool :=
       | RPart p => (p =? part)
       | RErr _ => false
       end &&
-      match log_lookup off (log_of (em_topic m, part) (ec_reqs e)) with
-      | Some en => entry_eqb en (image (ec_cfg e) (em_msg m))
+      (ts =? reported_ts (ec_cfg e) (ec_lat e) (em_msg m)) &&
+      match log_lookup off (stamp_log (ec_lat e) (log_of (em_topic m, part) (ec_reqs e))) with
+      | Some en => entry_eqb en (if ec_lat e =? ZERO_TIME then image (ec_cfg e) (em_msg m)
+                                 else stamp_entry (ec_lat e) (image (ec_cfg e) (em_msg m)))
       | None => false
       end
   end.
